@@ -176,7 +176,7 @@ func drawCase(t *rapid.T) hsCase {
 	}
 	c.ClientCert = rapid.SampledFrom([]string{"none", "trusted", "trusted", "callback", "untrusted", "callback_untrusted", "expired", "serverauth_only", "via_intermediate", "via_intermediate"}).Draw(t, "clientcert")
 	if c.ClientKind == "tls" {
-		c.ClientCert = rapid.SampledFrom([]string{"none", "rsa", "rsa", "ec", "ec"}).Draw(t, "clientcert_tls")
+		c.ClientCert = rapid.SampledFrom([]string{"none", "rsa", "rsa", "ec", "ec", "rsa_callback", "ec_callback"}).Draw(t, "clientcert_tls")
 	}
 	c.Tickets = rapid.Bool().Draw(t, "tickets")
 	size := func(name string) int {
@@ -300,13 +300,13 @@ func build(c hsCase, id string) (ccfg, scfg *gmtls.Config) {
 		cc = p.ClientExpired
 	case "serverauth_only":
 		cc = p.ClientServerAuthOnly
-	case "rsa":
+	case "rsa", "rsa_callback":
 		cc = p.RSAClient
-	case "ec":
+	case "ec", "ec_callback":
 		cc = p.ECClient // ECDSA client certificate: the CertificateVerify hash differs from RSA below TLS 1.2
 	}
 	if cc != nil {
-		if c.ClientCert == "callback" || c.ClientCert == "callback_untrusted" {
+		if c.ClientCert == "callback" || c.ClientCert == "callback_untrusted" || strings.HasSuffix(c.ClientCert, "_callback") {
 			id := cc
 			ccfg.GetClientCertificate = func(*gmtls.CertificateRequestInfo) (*gmtls.Certificate, error) { return &id.TLS, nil }
 		} else {
@@ -630,9 +630,9 @@ func runWithStd(c hsCase, ccfg, scfg *gmtls.Config, csend, ssend []byte) *stdRes
 	if c.Peer == "stdclient" {
 		sc := &stdtls.Config{RootCAs: stdRoots(), ServerName: tlsx.ServerName, Time: tlsx.FixedTime, MinVersion: toStdVer(c.CMin, 0x0301), MaxVersion: toStdVer(c.CMax, 0x0303),
 			CipherSuites: c.CliSuites, InsecureSkipVerify: c.SkipVerify}
-		if c.ClientCert == "rsa" {
+		if strings.TrimSuffix(c.ClientCert, "_callback") == "rsa" {
 			sc.Certificates = []stdtls.Certificate{{Certificate: [][]byte{p.RSAClient.DER}, PrivateKey: p.RSAClient.Key}}
-		} else if c.ClientCert == "ec" {
+		} else if strings.TrimSuffix(c.ClientCert, "_callback") == "ec" {
 			sc.Certificates = []stdtls.Certificate{{Certificate: [][]byte{p.ECClient.DER}, PrivateKey: p.ECClient.Key}}
 		}
 		ds := hub.GoAll(func() { stdSide(stdtls.Client(cw, sc), csend, c.CFrag) }, func() { gmSide(gmtls.Server(sw, scfg), ssend, c.SFrag) })
@@ -689,9 +689,9 @@ func stdControl(c hsCase) bool {
 	}
 	ccfg := &stdtls.Config{RootCAs: stdRoots(), ServerName: tlsx.ServerName, Time: tlsx.FixedTime, MinVersion: v(c.CMin, 0x0301), MaxVersion: v(c.CMax, 0x0303),
 		CipherSuites: c.CliSuites, InsecureSkipVerify: c.SkipVerify}
-	if c.ClientCert == "rsa" {
+	if strings.TrimSuffix(c.ClientCert, "_callback") == "rsa" {
 		ccfg.Certificates = []stdtls.Certificate{{Certificate: [][]byte{p.RSAClient.DER}, PrivateKey: p.RSAClient.Key}}
-	} else if c.ClientCert == "ec" {
+	} else if strings.TrimSuffix(c.ClientCert, "_callback") == "ec" {
 		ccfg.Certificates = []stdtls.Certificate{{Certificate: [][]byte{p.ECClient.DER}, PrivateKey: p.ECClient.Key}}
 	}
 	scfg := &stdtls.Config{Certificates: []stdtls.Certificate{{Certificate: [][]byte{std.DER}, PrivateKey: std.Key}}, Time: tlsx.FixedTime,
